@@ -36,7 +36,7 @@ func init() {
 		Real:           []string{"glow timeslot conversions and the production CurrentTimeslot", "production-constant server: rotation loop (hourly check), impact loop, weekly WattTime refresh, report handler"},
 		Stub:           []string{"system clock (bubble clock, 2000-01-01 onwards, forward only)", "WattTime service (harness responder behind http.DefaultTransport)", "socket listeners"},
 		Assumptions:    []string{"the pure conversion functions are exercised at the instants the simulated clock visits plus the listed boundaries (input enumeration, not simulation)", "the acceptance comparison at now<432 is covered by C01 (test flavour); now near 2^32 is unreachable by real rotations"},
-		RequiredProbes: []string{"c20.walk.far-end", "c20.walk.pre-genesis", "c20.cadence.rotated", "c20.cadence.delayed-rotation", "c20.cadence.watttime-fault", "c20.cadence.edge-report"},
+		RequiredProbes: []string{"c20.walk.far-end", "c20.walk.pre-genesis", "c20.cadence.rotated", "c20.cadence.delayed-rotation", "c20.cadence.watttime-fault", "c20.cadence.edge-report", "c20.cadence.beyond-half-width"},
 	})
 }
 
@@ -260,6 +260,26 @@ func c20Cadence(m *Sim) {
 				}
 				n.DoDatagram(b)
 				m.Probe("c20.cadence.edge-report")
+			}
+		}
+		// Beyond the half-width nothing is acceptable: were the server's own
+		// range wider than 432, the inequality above would be about another
+		// number. A report just outside must leave no record.
+		if m.C.Chance("beyond-half-width", 1, 10) {
+			d := devs[m.C.Int("beyond-dev", len(devs))]
+			k := []int64{433, 434, 500, 864, 865, 1000, 2000}[m.C.Int("beyond-k", 7)]
+			if m.C.Chance("beyond-past", 1, 2) {
+				k = -k
+			}
+			if slot := int64(now) + k; slot >= 0 {
+				before, _, _ := n.S.VerifWindow(d.ID, true)
+				n.DoDatagram(SignedReport(d.Key, d.ID, uint32(slot), 600).Encode())
+				if reps, _, ok := n.S.VerifWindow(d.ID, true); ok {
+					if i := slot - int64(n.Model.Offset); i >= 0 && i < 4032 && reps[i] != before[i] {
+						m.Fail("C20.cadence-run", "half-width", "a report dated %+d slots from the clock (now=%d) changed the record of its timeslot: the server's acceptance range is wider than 432 slots, the cadence inequality no longer protects the window", k, now)
+					}
+				}
+				m.Probe("c20.cadence.beyond-half-width")
 			}
 		}
 		if m.C.Chance("compare", 1, 50) {
